@@ -1,0 +1,46 @@
+//go:build verif
+
+package k8s
+
+import (
+	"sync"
+
+	corev1 "k8s.io/api/core/v1"
+	"k8s.io/apimachinery/pkg/util/sets"
+	"k8s.io/client-go/tools/record"
+	"sigs.k8s.io/controller-runtime/pkg/client"
+
+	"github.com/AliyunContainerService/terway/pkg/storage"
+	"github.com/AliyunContainerService/terway/types"
+	"github.com/AliyunContainerService/terway/types/daemon"
+)
+
+// NewVerifK8S builds the real Kubernetes implementation over an injected client and storage
+// (NewK8S needs a live cluster config).
+func NewVerifK8S(c client.Client, mode string, node *corev1.Node, st storage.Storage, svcCIDR *types.IPNetSet, enableErdma bool) Kubernetes {
+	return &k8s{
+		client:                  c,
+		mode:                    mode,
+		node:                    node,
+		nodeName:                node.Name,
+		daemonNamespace:         "kube-system",
+		storage:                 st,
+		broadcaster:             record.NewBroadcaster(),
+		recorder:                &record.FakeRecorder{},
+		Locker:                  &sync.RWMutex{},
+		svcCIDR:                 svcCIDR,
+		enableErdma:             enableErdma,
+		statefulWorkloadKindSet: sets.New[string]("statefulset"),
+	}
+}
+
+// VerifPodStorageCodec returns the (de)serializer NewK8S uses for its pod store.
+func VerifPodStorageCodec() (storage.Serializer, storage.Deserializer) {
+	return serialize, deserialize
+}
+
+func VerifConvertPod(daemonMode string, enableErdma bool, kinds sets.Set[string], pod *corev1.Pod) *daemon.PodInfo {
+	return convertPod(daemonMode, enableErdma, kinds, pod)
+}
+
+func VerifParseBandwidth(s string) (uint64, error) { return parseBandwidth(s) }
